@@ -906,4 +906,72 @@ theorem dlinv_runD (v : Variant) (c : Cfg) (ops : List OpD) : ∀ s, DlInv s →
   | cons op ops ih => intro s h; exact ih _ (dlinv_stepD v c s op h)
 
 
+/-! ### addressPool.pick -/
+
+/-- the pool after `k` picks -/
+def afterPicks : Nat → AddrPool → AddrPool
+  | 0, p => p
+  | k + 1, p => afterPicks k (pick p).1
+
+theorem pick_addrs (p : AddrPool) : (pick p).1.addrs = p.addrs := by
+  unfold pick; split <;> simp
+
+theorem afterPicks_addrs (k : Nat) : ∀ p : AddrPool, (afterPicks k p).addrs = p.addrs := by
+  induction k with
+  | zero => intro p; rfl
+  | succ k ih => intro p; simp [afterPicks, ih, pick_addrs]
+
+theorem afterPicks_head (k : Nat) : ∀ p : AddrPool, 0 < p.addrs.length →
+    (afterPicks k p).head % p.addrs.length = (p.head + k) % p.addrs.length := by
+  induction k with
+  | zero => intro p _; simp [afterPicks]
+  | succ k ih =>
+    intro p hl
+    have hne : ¬ p.addrs.length = 0 := by omega
+    have h1 : (pick p).1.head = (p.head + 1) % p.addrs.length := by simp [pick, hne]
+    have := ih (pick p).1 (by rw [pick_addrs]; exact hl)
+    simp only [afterPicks]
+    rw [pick_addrs] at this
+    rw [this, h1, Nat.mod_add_mod]
+    congr 1; omega
+
+theorem pickN_get (k : Nat) : ∀ (n : Nat) (p : AddrPool), k < n → (pickN n p)[k]? = some (pick (afterPicks k p)).2 := by
+  induction k with
+  | zero => intro n p h; cases n with
+    | zero => omega
+    | succ n => simp [pickN, afterPicks]
+  | succ k ih => intro n p h; cases n with
+    | zero => omega
+    | succ n => simp only [pickN, afterPicks, List.getElem?_cons_succ]; exact ih n _ (by omega)
+
+/-- the `k`-th reconnect attempt (counting from 0) dials address `(head + k) mod len` -/
+theorem pick_kth (p : AddrPool) (hh : p.head < p.addrs.length) (k n : Nat) (hk : k < n) :
+    (pickN n p)[k]? = some (p.addrs[(p.head + k) % p.addrs.length]?) := by
+  have hl : 0 < p.addrs.length := by omega
+  rw [pickN_get k n p hk]
+  have hne : ¬ (afterPicks k p).addrs.length = 0 := by rw [afterPicks_addrs]; omega
+  have hhead := afterPicks_head k p hl
+  -- the head stays below len (it is reduced mod len at every pick; initially by hypothesis)
+  have hlt : (afterPicks k p).head < p.addrs.length := by
+    cases k with
+    | zero => simpa [afterPicks] using hh
+    | succ k =>
+      have : (afterPicks (k + 1) p).head = (afterPicks k (pick p).1).head := rfl
+      clear hhead
+      -- generic: after at least one pick the head is a remainder
+      have gen : ∀ (j : Nat) (q : AddrPool), 0 < q.addrs.length → q.head < q.addrs.length → (afterPicks j q).head < q.addrs.length := by
+        intro j
+        induction j with
+        | zero => intro q _ h; simpa [afterPicks] using h
+        | succ j ihj =>
+          intro q hq _
+          have hq0 : ¬ q.addrs.length = 0 := by omega
+          have := ihj (pick q).1 (by rw [pick_addrs]; exact hq) (by simp [pick, hq0]; exact Nat.mod_lt _ hq)
+          simpa [afterPicks, pick_addrs] using this
+      exact gen (k + 1) p hl hh
+  rw [Nat.mod_eq_of_lt hlt] at hhead
+  have hne2 : ¬ p.addrs = [] := by intro h; simp [h] at hl
+  simp [pick, hne, afterPicks_addrs, hhead, hne2]
+
+
 end SH.C31
